@@ -39,7 +39,7 @@ def main():
         print("CHECKER-ERROR: property %s is not claimed (see MANIFEST.not_applicable)" % pid)
         return 3
     spec = PM.PROPS[pid]
-    timeout_ms = 10000 if tier == "quick" else 60000
+    timeout_ms = 30000 if tier == "quick" else 120000
     quals = sorted(q for q, c in REGISTRY.items() if hasattr(c, "tags") and pid in c.tags)
     results = R.run_functions(quals, timeout_ms=timeout_ms, split=PM.SPLIT)
     from pvc.front import Source
